@@ -1,11 +1,12 @@
-import PyYetiVerif.Model.Findap
+import PyYetiVerif.Model.FindapFix
 import PyYetiVerif.Model.Rainflow
 import PyYetiVerif.Model.Fde
 /-
 Model of everything `pyyeti.fdepsd.fdepsd` / `_dofde` compute for ONE frequency after the
 `scipy.signal.lfilter` call: `SRSmax`, `Var`, the cycle table (`findap` → `rainflow`), `Amax`,
 `BinAmps`, `Count`, `BinCount`, the `G2max` loop, `Df4/8/12`, `Dt4/8/12`, `sig2_4/8/12`,
-`G1, G2, G4, G8, G12`, `Gmax` (peakamp) and the rescaling of `Dt*` for `resp='pvelo'`.
+`G1, G2, G4, G8, G12`, `Gmax` (peakamp), the rescaling of `Dt*` and the halving of `sig2_*` for
+`resp='pvelo'`.
 
 Core Lean only.  One polymorphic definition: proved about at `ℝ` (Props/C10Fde.lean), run at
 `Float` by Drivers/C10.lean (every arithmetic step in the order the Python source performs it,
@@ -48,7 +49,7 @@ def variance (x : List α) : α :=
 /-- `rf = rainflow(resphist[findap(resphist)])` reduced to the `(amp, count)` columns;
 `none` = the `ValueError` of an empty history or of fewer than two reversals. -/
 def cyclesOf (tol : α) (y : List α) : Option (List (α × α)) :=
-  match Findap.findapDef tol y with
+  match Findap.findapDefFix tol y with
   | none => none
   | some m =>
       (Rainflow.rainflowApi (Findap.select m y)).map fun t =>
@@ -116,7 +117,9 @@ structure PsdRow (α : Type) where
   dto8 : α
   dto12 : α
 
-/-- everything after the damage indicators: `N0 … Gmax`, both `resp` branches -/
+/-- everything after the damage indicators up to and including `Dt4 *= 4; Dt8 *= 16; Dt12 *= 64`:
+`N0 … Gmax`, both `resp` branches; `v4, v8, v12` are the `sig2_b` the code SOLVES for (for `pvelo`
+twice the response variance: the last three lines of the branch, `psdOut`, halve them) -/
 def psdRow (resp : Resp) (Q f T0 am g2m df4 df8 df12 : α) : PsdRow α :=
   let nc : Nat → α := fun k => (Nat.cast k : α)
   let pi : α := TransOps.pi
@@ -172,6 +175,16 @@ def psdRow (resp : Resp) (Q f T0 am g2m df4 df8 df12 : α) : PsdRow α :=
         v4 := s4, v8 := s8, v12 := s12, dt4 := Dt4, dt8 := Dt8, dt12 := Dt12,
         dto4 := Dt4 * nc 4, dto8 := Dt8 * nc 16, dto12 := Dt12 * nc 64 }
 
+/-- the returned per-frequency values: `psdRow` followed by `sig2_b = sig2_b / 2` for `pvelo`
+(repair 4ed3a4d: `var_test` is the variance of the pseudo-velocity response) -/
+def psdOut (resp : Resp) (Q f T0 am g2m df4 df8 df12 : α) : PsdRow α :=
+  let p := psdRow resp Q f T0 am g2m df4 df8 df12
+  match resp with
+  | .absacce => p
+  | .pvelo =>
+      { p with v4 := p.v4 / (Nat.cast 2 : α), v8 := p.v8 / (Nat.cast 2 : α),
+               v12 := p.v12 / (Nat.cast 2 : α) }
+
 /-- everything `fdepsd` returns for one frequency that depends on the cycle table only -/
 structure TableOut (α : Type) where
   row : Row α
@@ -185,7 +198,7 @@ def fdeTable (resp : Resp) (Q f T0 : α) (nbins : Nat) (cycles : List (α × α)
   | none => none
   | some r =>
       let g2m := g2max r.amax r.levels r.count
-      some { row := r, g2max := g2m, psd := psdRow resp Q f T0 r.amax g2m r.df4 r.df8 r.df12 }
+      some { row := r, g2max := g2m, psd := psdOut resp Q f T0 r.amax g2m r.df4 r.df8 r.df12 }
 
 /-- all per-frequency outputs -/
 structure FreqOut (α : Type) where
